@@ -744,9 +744,40 @@ def _dispatch(col, eu, su, case, sub):
 
 # --------------------------------------------------------------------------
 
+def slug_codepoints(col, lo, hi):
+    """Exhaustive: every Unicode code point (surrogates excepted) on its own
+    and embedded in a word: alphabet, single hyphens, idempotence."""
+    from oslo_utils import strutils as su
+    sub = 'slug/codepoints'
+    n = 0
+    for cp in range(lo, hi):
+        if 0xD800 <= cp <= 0xDFFF:
+            continue
+        ch = chr(cp)
+        for text in (ch, 'ab' + ch + 'cd', 'A ' + ch + '-' + ch + ' z'):
+            case = {'text': text, 'incoming': 'utf-8', 'errors': 'strict',
+                    'ambient': None}
+            check_slug(col, su, case, sub)
+            n += 1
+    col.count(sub, n - 1, 'plane=%d' % (lo >> 16))
+    col.distinct_extra += n - 1
+    col.case(sub, ('cp', lo, hi), True, 'sample',
+             {'codepoints': [lo, hi], 'forms_per_codepoint': 3})
+    col.exhaustive.setdefault(sub, True)
+
+
 def tasks(tier, seed):
     q = tier == 'quick'
     out = [Task('typeerror', typeerror_table), Task('table', fixed_points)]
+    # assigned planes densely, the rest of the code space in the thorough tier
+    step = 0x2000
+    top = 0x30000 if q else 0x110000
+    for lo in range(0, top, step):
+        out.append(Task('slug/codepoints', slug_codepoints, lo=lo,
+                        hi=min(top, lo + step)))
+    if q:
+        out.append(Task('slug/codepoints', slug_codepoints, lo=0xE0000,
+                        hi=0xE0200))
     n = 900 if q else 14000
     fams = (('decode', decode_search, 3), ('encode-str', encode_str_search, 3),
             ('encode-bytes', encode_bytes_search, 3),
